@@ -444,6 +444,11 @@ CtxPre(name) ==
     [] name = "sprivT" ->
          "(class { static #f = 3; static #m(a) { k(a); return 7; } static get #a() { k(\"geta\"); return this.#f; } static set #a(v) { k(\"seta\"); this.#f = v; } static run() { return [(idt(this), "
     [] name \in {"varU", "varT", "varZ"} -> "((v) => ["
+    [] name = "fprivT" ->
+         "(new (class { #f = 3; #m(a) { k(a); return 7; } get #a() { k(\"geta\"); return this.#f; } set #a(v) { k(\"seta\"); this.#f = v; } g = [(idt(this), "
+    [] name = "avarU" -> "(await (async (v) => ["
+    [] name = "aprivT" ->
+         "(await (new (class { #f = 3; #m(a) { k(a); return 7; } get #a() { k(\"geta\"); return this.#f; } set #a(v) { k(\"seta\"); this.#f = v; } async run() { return [(idt(this), "
 CtxPost(name) ==
   CASE name = "arrow"    -> "))()"
     [] name = "aarrow"   -> "))())"
@@ -472,8 +477,11 @@ CtxPost(name) ==
     [] name = "varU"     -> ", v])(undefined)"
     [] name = "varT"     -> ", v])(3)"
     [] name = "varZ"     -> ", v])(0)"
+    [] name = "fprivT"   -> "), this.#f]; })).g"
+    [] name = "avarU"    -> ", v])(undefined))"
+    [] name = "aprivT"   -> "), this.#f]; } })).run())"
 \* contexts whose body needs an async main
-AsyncCtx == {"aarrow", "afn", "agen", "await"}
+AsyncCtx == {"aarrow", "afn", "agen", "await", "avarU", "aprivT"}
 \* contexts in which `arguments` is a syntax error or refers to another function
 NoArgCtx == {"field", "sfield", "sblock", "meth", "gen", "agen", "afn"}
 TplText(n) == JoinStr([i \in 1..(n + 1) |-> "s" \o ToString(i)], "")
@@ -748,17 +756,17 @@ EvObj(x, c) ==
 \* ---- contexts (positions)
 CtxThis(name, c) ==
   CASE name = "meth" -> PlainV
-    [] name \in {"field", "privU", "privT"} -> InstV
+    [] name \in {"field", "privU", "privT", "aprivT", "fprivT"} -> InstV
     [] name \in {"sfield", "sblock"} -> ClassV
     [] name = "sprivT" -> SClassV
     [] OTHER -> c.this
-CtxStrict(name, c) == c.strict \/ name \in {"field", "sfield", "sblock", "clskey", "clsskey", "heritage", "privU", "privT", "sprivT"}
-CtxLogsThis == {"arrow", "aarrow", "afn", "gen", "agen", "meth", "field", "sfield", "sblock", "privU", "privT", "sprivT"}
+CtxStrict(name, c) == c.strict \/ name \in {"field", "sfield", "sblock", "clskey", "clsskey", "heritage", "privU", "privT", "sprivT", "aprivT", "fprivT"}
+CtxLogsThis == {"arrow", "aarrow", "afn", "gen", "agen", "meth", "field", "sfield", "sblock", "privU", "privT", "sprivT", "aprivT", "fprivT"}
 EvCtx(x, c) ==
   LET name == x.s
       th   == CtxThis(name, c)
-      st0  == CASE name \in {"privU", "varU"} -> [v |-> Undef, f |-> Undef]
-                [] name \in {"privT", "sprivT", "varT"} -> [v |-> Num(3), f |-> Num(3)]
+      st0  == CASE name \in {"privU", "varU", "avarU"} -> [v |-> Undef, f |-> Undef]
+                [] name \in {"privT", "sprivT", "varT", "aprivT", "fprivT"} -> [v |-> Num(3), f |-> Num(3)]
                 [] name = "varZ" -> [v |-> Num(0), f |-> Undef]
                 [] OTHER -> c.st
       c2   == [c EXCEPT !.this = th, !.strict = CtxStrict(name, c), !.st = st0,
@@ -767,14 +775,14 @@ EvCtx(x, c) ==
       r    == Ev(x.a[1], c2)
       t    == pre \o r.t
       \* the local variable / private field of an inner context is not visible outside
-      stOut == IF name \in {"privU", "privT", "sprivT", "varU", "varT", "varZ"} THEN c.st ELSE r.st
+      stOut == IF name \in {"privU", "privT", "sprivT", "aprivT", "fprivT", "varU", "varT", "varZ", "avarU"} THEN c.st ELSE r.st
   IN
   IF r.ab # "" THEN R(t, Undef, r.ab, FALSE, Undef, stOut)
   ELSE CASE name \in {"ckey", "clskey", "clsskey"} -> Ok(t \o <<"k:" \o Fmt(r.v)>>, Num(0), stOut)
          [] name = "heritage" -> Ok(t \o <<"h:" \o Fmt(r.v)>>, Num(0), stOut)
          [] name = "while" -> Ok(t, IF Truthy(r.v) THEN Num(1) ELSE Num(0), stOut)
-         [] name \in {"privU", "privT", "sprivT"} -> Ok(t, Lit("[" \o Fmt(r.v) \o "," \o Fmt(r.st.f) \o "]"), stOut)
-         [] name \in {"varU", "varT", "varZ"} -> Ok(t, Lit("[" \o Fmt(r.v) \o "," \o Fmt(r.st.v) \o "]"), stOut)
+         [] name \in {"privU", "privT", "sprivT", "aprivT", "fprivT"} -> Ok(t, Lit("[" \o Fmt(r.v) \o "," \o Fmt(r.st.f) \o "]"), stOut)
+         [] name \in {"varU", "varT", "varZ", "avarU"} -> Ok(t, Lit("[" \o Fmt(r.v) \o "," \o Fmt(r.st.v) \o "]"), stOut)
          [] OTHER -> Ok(t, r.v, stOut)
 
 \* ---- sequencing helper: steps are evaluated in order, each with its own this/strictness;
@@ -1027,6 +1035,8 @@ RoleSet(role) ==
     [] role = "ka" -> {"Sa", "S"}          \* property key ("a" / "t")
     [] role = "g"  -> {"G", "U", "T"}      \* spread source
     [] role = "gs" -> {"G", "N", "T"}      \* destructuring source
+    [] role = "gt" -> {"G", "T"}           \* ... of a destructuring assignment (V8 evaluates the targets before it
+                                           \*     rejects a null source; ECMA-262 says the opposite: not generated)
     [] role = "f"  -> {"F", "U"}           \* callee
     [] role = "i"  -> {"O", "U", "T"}      \* operand of a private brand check / access
     [] role = "d"  -> {"D", "DX", "N", "T"}      \* operand of using
@@ -1115,7 +1125,7 @@ ClassCD(sh) == [name |-> ShapeName(sh), fam |-> "class", op |-> "", key |-> "", 
 StmtConstructs ==
   <<CD("r_param", "rest", "r_param", "", <<"gs">>, ""),
     CD("r_decl", "rest", "r_decl", "", <<"gs", "v">>, ""),
-    CD("r_asg", "rest", "r_asg", "", <<"gs", "ro">>, ""),
+    CD("r_asg", "rest", "r_asg", "", <<"gt", "ro">>, ""),
     CD("r_catch", "rest", "r_catch", "", <<"gs">>, ""),
     CD("r_forof", "rest", "r_forof", "", <<"gs">>, ""),
     CD("r_key", "rest", "r_key", "", <<"gs", "ka">>, ""),
@@ -1190,7 +1200,7 @@ DefaultSlots(cd, off) == [j \in DOMAIN cd.roles |-> P(off + j, cd.roles[j])]
 ExprPositions == <<"ret", "arrow", "aarrow", "afn", "gen", "agen", "meth", "field", "sfield", "sblock", "ckey", "clskey",
                    "clsskey", "dflt", "ddflt", "heritage", "forinit", "forof", "while", "catch", "objval",
                    "recv", "callee", "arg", "asgval", "asgtgt", "taghole", "nulrhs", "nullhs">>
-PrivPositions == <<"privU", "privT", "sprivT", "privT_arrow", "privT_aarrow", "privU_field">>
+PrivPositions == <<"privU", "privT", "sprivT", "privT_arrow", "privT_aarrow", "privT_field">>
 VarPositions  == <<"varU", "varT", "varZ", "varT_arrow", "varU_aarrow">>
 Wrap(pos, e) ==
   CASE pos = "ret"     -> e
@@ -1203,10 +1213,10 @@ Wrap(pos, e) ==
     [] pos = "nulrhs"  -> Nul(P(21, "v"), e)
     [] pos = "nullhs"  -> Nul(e, P(21, "v"))
     [] pos = "privT_arrow"  -> Ctx("privT", Ctx("arrow", e))
-    [] pos = "privT_aarrow" -> Ctx("privT", Ctx("aarrow", e))
-    [] pos = "privU_field"  -> Ctx("privU", e)
+    [] pos = "privT_aarrow" -> Ctx("aprivT", Ctx("aarrow", e))
+    [] pos = "privT_field"  -> Ctx("fprivT", e)
     [] pos = "varT_arrow"   -> Ctx("varT", Ctx("arrow", e))
-    [] pos = "varU_aarrow"  -> Ctx("varU", Ctx("aarrow", e))
+    [] pos = "varU_aarrow"  -> Ctx("avarU", Ctx("aarrow", e))
     [] OTHER -> Ctx(pos, e)
 
 RECURSIVE HasKind(_, _), HasCtx(_, _), ProbesOf(_)
@@ -1220,8 +1230,8 @@ ProbesOf(x) == (IF x.k = "p" THEN {<<x.n, x.s>>} ELSE {}) \cup UNION {ProbesOf(x
 \* positions in which an expression containing await cannot stand (a non-async function or a
 \* class field initialiser lies in between)
 NoAwaitPos == {"arrow", "gen", "meth", "field", "sfield", "sblock", "dflt", "ddflt", "forinit", "forof", "while", "catch",
-               "privU", "privT", "sprivT", "privT_arrow", "privU_field", "varU", "varT", "varZ", "varT_arrow"}
-NoArgPos == {"field", "sfield", "sblock", "meth", "privU", "privT", "sprivT", "privT_arrow", "privT_aarrow", "privU_field"}
+               "privU", "privT", "sprivT", "privT_arrow", "privT_field", "varU", "varT", "varZ", "varT_arrow"}
+NoArgPos == {"field", "sfield", "sblock", "meth", "privU", "privT", "sprivT", "privT_arrow", "privT_aarrow", "privT_field"}
 PosOK(cd, e, pos) ==
   /\ (cd.req = "priv") <=> (pos \in SeqSet(PrivPositions))
   /\ (cd.req = "var") <=> (pos \in SeqSet(VarPositions))
@@ -1241,7 +1251,7 @@ SingleProgs(cds, idx) ==
 Nestable(cd) == cd.req = "" /\ cd.fam \notin {"class"}
 PairExpr(c1, j, c2) == Build(c1, [DefaultSlots(c1, 0) EXCEPT ![j] = Build(c2, DefaultSlots(c2, 10))])
 \* slots whose value is consumed in a way the rules cover for any operand
-NestSlots(cd) == {j \in DOMAIN cd.roles : cd.roles[j] \in {"r", "ro", "v", "n", "c", "g", "gs", "i", "b"}}
+NestSlots(cd) == {j \in DOMAIN cd.roles : cd.roles[j] \in {"r", "ro", "v", "n", "c", "g", "gs", "gt", "i", "b"}}
 PairPositions == <<"ret", "arrow", "aarrow", "gen", "field", "sfield", "sblock", "clskey", "dflt", "heritage", "arg">>
 PairProgs(outer, inner, idx) ==
   {Prog(pos \o "/" \o outer[i].name \o "/" \o ToString(j) \o "/" \o inner[m].name, Wrap(pos, PairExpr(outer[i], j, inner[m]))) :
